@@ -1,7 +1,12 @@
 // Scenario for property C09: threads that each own DISTINCT handles (two per thread: A and B) to payloads shared
 // with the other threads' handles - String, Variant (holding a string) or RefCount::Ptr - run per-thread programs
 // under the cooperative scheduler; the NSTD_VERIF hook in Atomic.hpp makes every atomic access a scheduling point.
-//   kind=string|variant|ptr  n=<threads>  p1=op,op,...   ops: aeqb beqa wa wb ca cb sw ra rb da db
+//   kind=string|variant|ptr|varr|vlist|vmap|xtext|xelem  n=<threads>  p1=op,op,...
+//   xtext / xelem: Xml::Variant handles sharing a text / an element payload (wa wb: new text = old text + a byte /
+//   append a byte to the element's type through the mutable accessor; ga gb: mutable element accessor alone)
+//   ops: aeqb beqa aeqa wa wb ca cb sw da db (la lb oa ob: variant) ta tb (trim) za zb (drop the last byte) ua ub (upper
+//   case) ga gb (mutable accessor without a modification).  varr / vlist / vmap: the handles are Variants sharing an
+//   Array / List / HashMap payload with one element; wa / wb append an element through the mutable accessor.
 // Every operation logs a call event before and the handle values after it.  Payload release is observed through
 // ASan (use after free / double free), the destructor of the Ptr pointee, and LeakSanitizer at the end.
 #include "../sched/sched.h"
@@ -11,6 +16,7 @@
 #include <nstd/String.hpp>
 #include <nstd/Variant.hpp>
 #include <nstd/RefCount.hpp>
+#include <nstd/Document/Xml.hpp>
 
 extern "C" int sched_param_str(const char* name, char* buf, int size);
 extern "C" int __lsan_do_recoverable_leak_check(void);
@@ -36,6 +42,7 @@ struct Handles
   String* s[2];
   Variant* v[2];
   RefCount::Ptr<Obj>* p[2];
+  Xml::Variant* x[2];
 };
 static Handles H[MAXT + 1];
 
@@ -49,6 +56,50 @@ static void put_val(char* out, size_t size, int t, int h)
     size_t n = snprintf(out, size, "[");
     const char* d = s;
     for(usize i = 0; i < s.length() && n + 8 < size; ++i) n += snprintf(out + n, size - n, i ? ",%d" : "%d", (int)(unsigned char)d[i]);
+    snprintf(out + n, size - n, "]");
+  }
+  else if(kind[0] == 'x')
+  {
+    // Xml::Variant: text -> its bytes; element -> marker -6 followed by the bytes of its type; null -> nothing
+    if(!H[t].x[h]) { snprintf(out, size, "[-1]"); return; }
+    const Xml::Variant* cv = H[t].x[h];
+    size_t n = snprintf(out, size, "[");
+    int first = 1;
+    String es;
+    if(cv->isElement()) { n += snprintf(out + n, size - n, "-6"); first = 0; es = cv->toElement().type; }
+    else es = cv->toString();
+    const char* d = es;
+    for(usize k = 0; k < es.length() && n + 8 < size; ++k) { n += snprintf(out + n, size - n, first ? "%d" : ",%d", (int)(unsigned char)d[k]); first = 0; }
+    snprintf(out + n, size - n, "]");
+  }
+  else if(kind[0] == 'v' && strcmp(kind, "variant"))
+  {
+    // container kinds: marker (-3 array, -4 list, -5 map) followed by the bytes of the elements' string values in
+    // iteration order; a Variant that is no container any more (cleared): the bytes of its string value
+    if(!H[t].v[h]) { snprintf(out, size, "[-1]"); return; }
+    const Variant* cv = H[t].v[h];
+    size_t n = snprintf(out, size, "[");
+    int first = 1;
+    #define PUT_ELEM(e) { String es = ((const Variant&)(e)).toString();   /* const: the observer must not detach an element of a shared container */ const char* d = es; for(usize k = 0; k < es.length() && n + 8 < size; ++k) { n += snprintf(out + n, size - n, first ? "%d" : ",%d", (int)(unsigned char)d[k]); first = 0; } }
+    if(cv->getType() == Variant::arrayType)
+    {
+      n += snprintf(out + n, size - n, "-3"); first = 0;
+      const Array<Variant>& a = cv->toArray();
+      for(usize i = 0; i < a.size(); ++i) PUT_ELEM(a[i]);
+    }
+    else if(cv->getType() == Variant::listType)
+    {
+      n += snprintf(out + n, size - n, "-4"); first = 0;
+      const List<Variant>& l = cv->toList();
+      for(List<Variant>::Iterator i = l.begin(), end = l.end(); i != end; ++i) PUT_ELEM(*i);
+    }
+    else if(cv->getType() == Variant::mapType)
+    {
+      n += snprintf(out + n, size - n, "-5"); first = 0;
+      const HashMap<String, Variant>& m = cv->toMap();
+      for(HashMap<String, Variant>::Iterator i = m.begin(), end = m.end(); i != end; ++i) PUT_ELEM(*i);
+    }
+    else PUT_ELEM(*cv);
     snprintf(out + n, size - n, "]");
   }
   else if(!strcmp(kind, "variant"))
@@ -105,7 +156,37 @@ static void run_prog(void* arg)
       else if(f[0] == 'w') { if(X) X->append(wr); }
       else if(f[0] == 'c') { if(X) X->clear(); }
       else if(f[0] == 'd') { delete X; X = 0; }
-      else if(f[0] == 'r') { }
+      else if(f[0] == 't') { if(X) X->trim(); }
+      else if(f[0] == 'z') { if(X && X->length()) X->resize(X->length() - 1); }
+      else if(f[0] == 'u') { if(X) X->toUpperCase(); }
+      else if(f[0] == 'g') { if(X) { char* m = *X; (void)m; } }      // mutable C-string access: detaches, changes nothing
+    }
+    else if(kind[0] == 'x')
+    {
+      Xml::Variant*& X = H[t].x[x]; Xml::Variant*& Y = H[t].x[y];
+      if(!strcmp(f, "aeqa")) { if(X) { Xml::Variant& self = *X; *X = self; } }
+      else if(!strcmp(f, "aeqb") || !strcmp(f, "beqa")) { if(X && Y) *X = *Y; }
+      else if(f[0] == 'c') { if(X) X->clear(); }
+      else if(f[0] == 'd') { delete X; X = 0; }
+      else if(f[0] == 'w' && !strcmp(kind, "xtext")) { if(X) { String nt = ((const Xml::Variant*)X)->toString(); nt.append(wr); *X = nt; } }
+      else if(f[0] == 'w') { if(X) X->toElement().type.append(wr); }
+      else if(f[0] == 'g' && !strcmp(kind, "xelem")) { if(X) X->toElement(); }
+    }
+    else if(kind[0] == 'v' && strcmp(kind, "variant"))
+    {
+      Variant*& X = H[t].v[x]; Variant*& Y = H[t].v[y];
+      char es[2] = { wr, 0 };
+      if(!strcmp(f, "aeqa")) { if(X) { Variant& self = *X; *X = self; } }
+      else if(!strcmp(f, "aeqb") || !strcmp(f, "beqa")) { if(X && Y) *X = *Y; }
+      else if(f[0] == 'c') { if(X) X->clear(); }
+      else if(f[0] == 'd') { delete X; X = 0; }
+      else if(f[0] == 'w' || f[0] == 'g')
+      {
+        // the mutable accessor detaches from a shared payload (and turns a cleared Variant into an empty container)
+        if(X && !strcmp(kind, "varr")) { Array<Variant>& a = X->toArray(); if(f[0] == 'w') a.append(Variant(String(es, 1))); }
+        else if(X && !strcmp(kind, "vlist")) { List<Variant>& l = X->toList(); if(f[0] == 'w') l.append(Variant(String(es, 1))); }
+        else if(X) { HashMap<String, Variant>& m = X->toMap(); if(f[0] == 'w') m.append(String(es, 1), Variant(String(es, 1))); }
+      }
     }
     else if(!strcmp(kind, "variant"))
     {
@@ -115,6 +196,10 @@ static void run_prog(void* arg)
       else if(f[0] == 'w') { if(X) X->toString().append(wr); }
       else if(f[0] == 'c') { if(X) X->clear(); }
       else if(f[0] == 'd') { delete X; X = 0; }
+      else if(f[0] == 't') { if(X) X->toString().trim(); }
+      else if(f[0] == 'z') { if(X) { String& str = X->toString(); if(str.length()) str.resize(str.length() - 1); } }
+      else if(f[0] == 'u') { if(X) X->toString().toUpperCase(); }
+      else if(f[0] == 'g') { if(X) X->toString(); }
       // la / lb: wrap the handle's value into a one-element list;  oa / ob: assign the handle the first element of
       // its OWN list (the element lives inside the payload that the assignment releases)
       else if(f[0] == 'l') { if(X) { List<Variant> l; l.append(*X); *X = l; } }
@@ -133,7 +218,7 @@ static void run_prog(void* arg)
   }
   // the thread's remaining handles go away with it
   sched_event("\"op\":\"c\",\"t\":%d,\"f\":\"end\"", t);
-  for(int h = 0; h < 2; ++h) { delete H[t].s[h]; H[t].s[h] = 0; delete H[t].v[h]; H[t].v[h] = 0; delete H[t].p[h]; H[t].p[h] = 0; }
+  for(int h = 0; h < 2; ++h) { delete H[t].s[h]; H[t].s[h] = 0; delete H[t].v[h]; H[t].v[h] = 0; delete H[t].p[h]; H[t].p[h] = 0; delete H[t].x[h]; H[t].x[h] = 0; }
   sched_event("\"op\":\"h\",\"t\":%d,\"f\":\"end\",\"a\":[-1],\"b\":[-1]", t);
 }
 
@@ -144,15 +229,25 @@ extern "C" void scenario_setup(void)
   sched_event("\"op\":\"setup\",\"kind\":\"%s\",\"n\":%d", kind, nthreads);
   {
     // two master payloads; every thread gets its own handles A -> payload 1, B -> payload 2; the masters go away
-    String m1("p"); m1.append('1');            // appended so that the payload is an owned, shareable block
-    String m2("q"); m2.append('2');
+    String m1("p1"); m1.append(' ');           // appended so that the payload is an owned, shareable block;
+    String m2("q2"); m2.append(' ');           // the trailing blank gives trim() something to do
     Variant v1(m1), v2(m2);
+    if(kind[0] == 'v' && strcmp(kind, "variant"))
+    {
+      String e1("p"), e2("q");
+      if(!strcmp(kind, "varr")) { Array<Variant> a1, a2; a1.append(Variant(e1)); a2.append(Variant(e2)); v1 = a1; v2 = a2; }
+      else if(!strcmp(kind, "vlist")) { List<Variant> l1, l2; l1.append(Variant(e1)); l2.append(Variant(e2)); v1 = l1; v2 = l2; }
+      else { HashMap<String, Variant> h1, h2; h1.append(e1, Variant(e1)); h2.append(e2, Variant(e2)); v1 = h1; v2 = h2; }
+    }
     RefCount::Ptr<Obj> o1, o2;
     if(!strcmp(kind, "ptr")) { o1 = new Obj(1); o2 = new Obj(2); }
+    Xml::Variant x1(m1), x2(m2);
+    if(!strcmp(kind, "xelem")) { Xml::Element e1, e2; e1.type = String("p"); e2.type = String("q"); e1.content.append(Xml::Variant(m1)); e2.content.append(Xml::Variant(m2)); x1 = Xml::Variant(e1); x2 = Xml::Variant(e2); }
     for(int t = 1; t <= nthreads && t <= MAXT; ++t)
     {
       if(!strcmp(kind, "string")) { H[t].s[0] = new String(m1); H[t].s[1] = new String(m2); }
-      else if(!strcmp(kind, "variant")) { H[t].v[0] = new Variant(v1); H[t].v[1] = new Variant(v2); }
+      else if(kind[0] == 'v') { H[t].v[0] = new Variant(v1); H[t].v[1] = new Variant(v2); }
+      else if(kind[0] == 'x') { H[t].x[0] = new Xml::Variant(x1); H[t].x[1] = new Xml::Variant(x2); }
       else { H[t].p[0] = new RefCount::Ptr<Obj>(o1); H[t].p[1] = new RefCount::Ptr<Obj>(o2); }
     }
   }
